@@ -516,7 +516,7 @@ def register(reg):
             old = conn_seq(c, old=True)
             cur = conn_seq(c)
             r = c.eng.coerce(c.st, c.result, "seq:ref:" + CI).t
-            usable = z3.Or(F(c, conn, "CI.avail"), F(c, conn, "CI.idle"), F(c, conn, "CI.closed"))
+            usable = z3.Or(F(c, conn, "CI.idle"), F(c, conn, "CI.closed"))
             released = r == z3.Unit(conn.t)
             return [
                 ("returns_nothing_or_exactly_the_requests_connection", ("C06", "C05"), z3.Or(r == z3.Empty(RefSeqS), z3.And(conn.t != 0, released))),
@@ -529,13 +529,15 @@ def register(reg):
 
         def checks(self, c):
             # the property-level clause: afterwards the request's connection is gone from the pool (handed over for
-            # closing), or somebody can still use it (available / idle), or it is closed (the pass drops it), or
-            # another request of the queue holds it (and will drive it)
+            # closing), or it is idle (reusable, can expire, can be evicted), or it is closed (the pass drops it), or
+            # another request of the queue holds it (and will drive it).  "It reports itself available" is NOT enough: an
+            # unestablished https + HTTP/2 connection does, and so does an HTTP/2 connection a cancelled request left ACTIVE
+            # with no stream - neither can ever be evicted (design_probes/w5_preexisting/C05_preexisting_1/2.py)
             s = c.self
             pr = c.args["pool_request"]
             conn = c.old(pr, "PR.connection")
             r = c.eng.coerce(c.st, c.result, "seq:ref:" + CI).t
-            usable = z3.Or(F(c, conn, "CI.avail"), F(c, conn, "CI.idle"), F(c, conn, "CI.closed"))
+            usable = z3.Or(F(c, conn, "CI.idle"), F(c, conn, "CI.closed"))
             x = z3.Const("rx", IntS)
             held_by_other = exists_in(F(c, s, "Pool._requests"), x, z3.Select(c.eng.heap_arr(c.st, "PR.connection", IntS), x) == conn.t)
             removed = [e for e in c.events("list.remove") if e.data["target"] == "Pool._connections"]
